@@ -12,10 +12,12 @@ CHECK = dict(
          "(default digest, new tag, replace, other repo by tag or digest, other registry, registry<->layout) x program of 0-5 options with generated arguments from all "
          "39 exported mod.With* modifiers (+WithRefTgt). Oracle = independent audit of the closure of the returned reference in raw target storage (descriptor digest/size/"
          "inline data, diff_ids vs. decompressed layers, history alignment, index entries, referrers and fall-back indexes), source frame condition on raw source storage, "
-         "no-op programs return the source digest, same program on an identical fresh input returns the same digest, all re-checked after Close for layouts. "
+         "no-op programs return the source digest, same program on an identical fresh input returns the same digest (in-process for every case; in a second process with "
+         "SOURCE_DATE_EPOC pinned for a sample: job crossproc), all re-checked after Close for layouts. "
          "Non-trivial = successful Apply of >=2 options of which at least one touches layers or media types; distinct by (option multiset, image shape, endpoints).",
     jobs=[dict(REPLAY, env=_ENV),
-          rapid("prop", "TestVerifProp", 14000, 300000, sq=16, st=16, env=_ENV)],
+          rapid("prop", "TestVerifProp", 20000, 240000, sq=16, st=16, env=_ENV),
+          rapid("crossproc", "TestVerifCrossProc", 480, 6400, sq=8, st=16, env=_ENV)],
     technique="property-based testing (rapid): generated images, endpoint pairings and option programs run through mod.Apply against an in-process model registry and raw OCI layouts; "
               "independent closure auditor (encoding/json, crypto, compress/gzip, zstd) as oracle",
     level_text="Generated-input search over image shapes, endpoint pairings and programs of modification options; every successful mod.Apply is audited from raw target storage "
@@ -24,8 +26,8 @@ CHECK = dict(
                "arguments change nothing must return the source digest, and the same program on an identical input must return the same digest. Exploration, not proof.",
     level_note="Trusted: regmodel, the harness' own image builder and auditor. An Apply that returns an error is not judged (success rates per option are in the class histogram: "
                "opt:<kind> vs optok:<kind>, solo:/solook: for single-option programs). A panic inside Apply on a conformant image with valid arguments is reported as a violation. "
-               "Not asserted: existence of foreign (urls) layer content at the target; referrers when the target is another repository (not copied by design); cross-process "
-               "determinism beyond the pinned SOURCE_DATE_EPOC; semantic correctness of an option's effect (only consistency of the result).",
+               "Not asserted: existence of foreign (urls) layer content at the target; referrers when the target is another repository (not copied by design); determinism "
+               "without the pinned SOURCE_DATE_EPOC (the history entry of an added layer carries the process start time by design); semantic correctness of an option's effect (only consistency of the result).",
     assumptions=["source content is spec-conformant and complete; every history entry carries a created time (mod dereferences it)",
                  "layers hold 1-4 entries (an empty tar layer is dropped by any file-level option, by design)",
                  "in-memory transport (no TLS, no sockets)"],
